@@ -602,14 +602,22 @@ func c14(r *hx.Run) {
 		if fs.trees["coreProof"] != nil {
 			mustReject("missing-core-proof-reference", "ref:core-proof-removed", p, edit("coreIndex", func(m map[string]interface{}) { delete(m, "coreProofFileUri") }), nil, fs.count)
 		} else {
-			other := sets[0]
-			tr := edit("coreIndex", func(m map[string]interface{}) { m["coreProofFileUri"] = "superfluous" })
-			c, a := fs.assemble(tr, nil, fs.count)
-			c.Put("superfluous", fx.Gzip(mustJSON(other.trees["coreProof"])))
-			caseID := fs.name + "|ref:core-proof-superfluous"
-			if r.Want(caseID) {
-				if res := c14Read(r, caseID, p, c, a, nil); res.err == nil {
-					r.Violation("accepts:superfluous-core-proof-reference", caseID, "core proof reference without recover/deactivate operations accepted", nil)
+			// the superfluous reference points at: a real proof with operations, empty proofs of every shape, the set's own other proof
+			targets := map[string]interface{}{"real": sets[0].trees["coreProof"], "empty-object": map[string]interface{}{}, "empty-operations": map[string]interface{}{"operations": map[string]interface{}{}},
+				"empty-lists": map[string]interface{}{"operations": map[string]interface{}{"recover": []interface{}{}, "deactivate": []interface{}{}}}}
+			if fs.trees["provProof"] != nil {
+				targets["own-provisional-proof"] = fs.trees["provProof"]
+			}
+			for tn, target := range targets {
+				tr := edit("coreIndex", func(m map[string]interface{}) { m["coreProofFileUri"] = "superfluous" })
+				c, a := fs.assemble(tr, nil, fs.count)
+				c.Put("superfluous", fx.Gzip(mustJSON(target)))
+				caseID := fs.name + "|ref:core-proof-superfluous|" + tn
+				if r.Want(caseID) {
+					r.Nontrivial(caseID)
+					if res := c14Read(r, caseID, p, c, a, nil); res.err == nil {
+						r.Violation("accepts:superfluous-core-proof-reference", caseID, "core proof reference without recover/deactivate operations accepted (target: "+tn+")", nil)
+					}
 				}
 			}
 		}
@@ -617,13 +625,30 @@ func c14(r *hx.Run) {
 			if fs.trees["provProof"] != nil {
 				mustReject("missing-provisional-proof-reference", "ref:prov-proof-removed", p, edit("provIndex", func(m map[string]interface{}) { delete(m, "provisionalProofFileUri") }), nil, fs.count)
 			} else {
-				tr := edit("provIndex", func(m map[string]interface{}) { m["provisionalProofFileUri"] = "superfluous" })
-				c, a := fs.assemble(tr, nil, fs.count)
-				c.Put("superfluous", fx.Gzip(mustJSON(sets[0].trees["provProof"])))
-				caseID := fs.name + "|ref:prov-proof-superfluous"
-				if r.Want(caseID) {
-					if res := c14Read(r, caseID, p, c, a, nil); res.err == nil {
-						r.Violation("accepts:superfluous-provisional-proof-reference", caseID, "provisional proof reference without update operations accepted", nil)
+				targets := map[string]interface{}{"real": sets[0].trees["provProof"], "empty-object": map[string]interface{}{}, "empty-operations": map[string]interface{}{"operations": map[string]interface{}{}},
+					"empty-list": map[string]interface{}{"operations": map[string]interface{}{"update": []interface{}{}}}}
+				if fs.trees["coreProof"] != nil {
+					targets["own-core-proof"] = fs.trees["coreProof"]
+				}
+				for tn, target := range targets {
+					// with the provisional index as written, and with its (possibly absent / empty) operations member in every shape
+					for sn, shape := range map[string]func(m map[string]interface{}){
+						"as-written":        func(m map[string]interface{}) {},
+						"operations-absent": func(m map[string]interface{}) { delete(m, "operations") },
+						"operations-empty":  func(m map[string]interface{}) { m["operations"] = map[string]interface{}{} },
+						"operations-null":   func(m map[string]interface{}) { m["operations"] = nil },
+						"update-empty":      func(m map[string]interface{}) { m["operations"] = map[string]interface{}{"update": []interface{}{}} },
+					} {
+						tr := edit("provIndex", func(m map[string]interface{}) { shape(m); m["provisionalProofFileUri"] = "superfluous" })
+						c, a := fs.assemble(tr, nil, fs.count)
+						c.Put("superfluous", fx.Gzip(mustJSON(target)))
+						caseID := fs.name + "|ref:prov-proof-superfluous|" + tn + "|" + sn
+						if r.Want(caseID) {
+							r.Nontrivial(caseID)
+							if res := c14Read(r, caseID, p, c, a, nil); res.err == nil {
+								r.Violation("accepts:superfluous-provisional-proof-reference", caseID, "provisional proof reference without update operations accepted (target: "+tn+", index operations: "+sn+")", nil)
+							}
+						}
 					}
 				}
 			}
